@@ -127,6 +127,27 @@ def nontrivial(v):
     return False
 
 
+def jsonnet_src(v):
+    """Jsonnet source text denoting the value (numbers via shortest repr, which the
+    correctly rounded str::parse::<f64> of the lexer maps back to the same double)"""
+    if v is None:
+        return "null"
+    if v is True:
+        return "true"
+    if v is False:
+        return "false"
+    if isinstance(v, float):
+        return "(%s)" % repr(v)
+    if isinstance(v, str):
+        return vlib.jsonnet_str(v)
+    if isinstance(v, list):
+        return "[" + ", ".join(jsonnet_src(x) for x in v) + "]"
+    if isinstance(v, Obj):
+        return "{" + ", ".join("%s%s %s" % (vlib.jsonnet_str(k), "::" if h else ":", jsonnet_src(x))
+                               for h, k, x in v.fields) + "}"
+    raise TypeError(v)
+
+
 # ----------------------------------------------------------------------------- generators
 SPECIAL_CP = (list(range(0, 0xA0)) + [0xA0, 0xAD, 0x2028, 0x2029, 0xD7FF, 0xE000, 0xFFFD, 0xFEFF, 0xFFFE, 0xFFFF,
                                        0x10000, 0x1F600, 0x10FFFF, 0x7FF, 0x800, 0xE9, 0x3042])
@@ -202,12 +223,10 @@ def gen_val(rng, depth, no_null=False, strs=None):
 def gen_yaml_str(rng, keyish=False):
     """strings for the PyYAML (YAML 1.1) oracle: no trailing newline; PyYAML rejects raw U+FFFE/U+FFFF
     (YAML 1.2 requires processors to accept them inside quoted scalars) and treats U+2028/U+2029 as
-    line breaks (ordinary characters in YAML 1.2), which breaks single-line keys."""
+    line breaks (ordinary characters in YAML 1.2): single-line keys break, adjacent spaces are folded."""
     while True:
         s = gen_str(rng, keyish)
-        if s.endswith("\n") or "\ufffe" in s or "\uffff" in s:
-            continue
-        if keyish and ("\u2028" in s or "\u2029" in s):
+        if s.endswith("\n") or any(c in s for c in "\ufffe\uffff\u2028\u2029"):
             continue
         return s
 
@@ -571,14 +590,15 @@ def run(rep):
         "(repr -> positional, no '.0'), so byte equality also checks that text against Rust's Display",
         "numbers decoded by Python/TOML/YAML parsers are compared numerically (1 vs 1.0, -0 vs 0), JSON bit-exactly",
         "YAML decoder = PyYAML %s safe_load (YAML 1.1): strings not ending in newline; strings with raw U+FFFE/U+FFFF "
-        "(rejected by PyYAML, must be accepted inside quoted scalars per YAML 1.2 5.1) and keys with U+2028/U+2029 "
-        "(line breaks only in YAML 1.1) are decoded with the implementation's own std.parseYaml instead; "
+        "(rejected by PyYAML, must be accepted inside quoted scalars per YAML 1.2 5.1) or U+2028/U+2029 "
+        "(line breaks only in YAML 1.1: PyYAML folds them) are decoded with the implementation's own std.parseYaml instead; "
         "std.manifestYamlStream is exercised with >= 1 document (for [] it emits one empty document, as upstream does)"
         % (getattr(yaml, "__version__", "absent")),
         "TOML decoder = tomllib (arbitrary-size integers); top-level objects without null",
         "parse errors compared by kind (line/column not modelled)",
     ]
-    vlib.prelude(rep)
+    regenerate_table()
+    vlib.prelude(rep, cli=True)
     rng = rep.rng
     quick = rep.tier == "quick"
     nvals = 260 if quick else 6000
@@ -692,6 +712,9 @@ def run(rep):
             rep.violation(violation_key(kind, c, bad), "%s output: %s" % (kind, bad), replay)
     vlib.compare(rep, cases, io, mo, label="manifest")
 
+    # ---------------- the CLI's own composition: default output, -y stream items, -m files
+    cli_batch(rep, rng, 40 if quick else 600)
+
     # ---------------- escape / key-quoting predicates
     pcases = []
     for cp in (range(0, 0x300) if quick else range(0, 0x3000)):
@@ -770,6 +793,108 @@ def run(rep):
             rep.disagreement(c["key"], "parse: implementation and model differ", {"case": {"key": c["key"]}, "impl": a[:1500], "model": b[:1500]})
 
 
+def run_cli(args, src):
+    import os
+    import subprocess
+    os.makedirs(vlib.TMP, exist_ok=True)
+    path = os.path.join(vlib.TMP, "c05_%d.jsonnet" % os.getpid())
+    with open(path, "w", encoding="utf-8") as f:
+        f.write(src)
+    p = subprocess.run([vlib.CLI_BIN] + args + [path], stdout=subprocess.PIPE, stderr=subprocess.PIPE, timeout=60)
+    return p.returncode, p.stdout, p.stderr
+
+
+def cli_batch(rep, rng, n):
+    """default output, `-y` and `-m` of the real CLI binary, decoded with the JSON oracle"""
+    import os
+    import shutil
+    for i in range(n):
+        mode = ["default", "yaml", "multi"][i % 3]
+        if mode == "default":
+            v = gen_val(rng, rng.choice([1, 2, 3]))
+            src = jsonnet_src(v)
+            rc, out, err = run_cli([], src)
+            key = "cli-default " + wire(v)
+            rep.count(key, nontrivial(v))
+            rep.bump("cli-default")
+            replay = {"cli": [], "src": src, "stdout": out.decode("utf-8", "replace")[:1000], "stderr": err.decode("utf-8", "replace")[:300]}
+            if rc != 0:
+                rep.violation(key, "CLI failed on a JSON-representable value (rc=%s)" % rc, replay)
+                continue
+            text = out.decode("utf-8")
+            bad = None if text.endswith("\n") else "no trailing newline"
+            bad = bad or oracle_json(text, expected(v))
+            if bad:
+                rep.violation(key, "default output: " + bad, replay)
+        elif mode == "yaml":
+            docs = [gen_val(rng, 2) for _ in range(rng.randrange(0, 4))]
+            src = jsonnet_src(docs)
+            rc, out, err = run_cli(["-y"], src)
+            key = "cli-yaml " + wire(docs)
+            rep.count(key, len(docs) >= 2)
+            rep.bump("cli-yaml-stream")
+            replay = {"cli": ["-y"], "src": src, "stdout": out.decode("utf-8", "replace")[:1000], "stderr": err.decode("utf-8", "replace")[:300]}
+            if rc != 0:
+                rep.violation(key, "CLI -y failed (rc=%s)" % rc, replay)
+                continue
+            text = out.decode("utf-8")
+            bad = None
+            if not docs:
+                bad = None if text == "" else "empty stream is not empty output"
+            else:
+                if not (text.startswith("---\n") and text.endswith("\n...\n")):
+                    bad = "stream framing"
+                else:
+                    items = text[4:-5].split("\n---\n")
+                    if len(items) != len(docs):
+                        bad = "wrong number of documents (%d for %d)" % (len(items), len(docs))
+                    else:
+                        for it, d in zip(items, docs):
+                            bad = bad or oracle_json(it, expected(d))
+            if bad:
+                rep.violation(key, "YAML-stream item: " + bad, replay)
+        else:
+            names = rng.sample(["a.json", "b", "c.txt", "d1", "e_2", "f-3"], rng.randrange(1, 4))
+            files = [(nm, gen_val(rng, 2)) for nm in names]
+            src = jsonnet_src(Obj([(False, nm, fv) for nm, fv in files]))
+            d = os.path.join(vlib.TMP, "c05_multi_%d" % os.getpid())
+            shutil.rmtree(d, ignore_errors=True)
+            os.makedirs(d)
+            rc, out, err = run_cli(["-m", d], src)
+            key = "cli-multi " + wire(Obj([(False, nm, fv) for nm, fv in files]))
+            rep.count(key, True)
+            rep.bump("cli-multi")
+            replay = {"cli": ["-m", "<dir>"], "src": src, "stdout": out.decode("utf-8", "replace")[:500], "stderr": err.decode("utf-8", "replace")[:300]}
+            if rc != 0:
+                rep.violation(key, "CLI -m failed (rc=%s)" % rc, replay)
+            else:
+                for nm, fv in files:
+                    try:
+                        text = open(os.path.join(d, nm), encoding="utf-8").read()
+                    except Exception as e:  # noqa
+                        rep.violation(key, "multi-file output %s missing: %s" % (nm, e), replay)
+                        continue
+                    bad = oracle_json(text, expected(fv))
+                    if bad:
+                        rep.violation(key, "multi-file output %s: %s" % (nm, bad), replay)
+            shutil.rmtree(d, ignore_errors=True)
+
+
+def regenerate_table():
+    """RsjModel/EscapeTable.lean is re-derived from manifest.rs before the proofs are rebuilt"""
+    import os
+    import sys
+    sys.path.insert(0, os.path.join(vlib.VERIF, "tools"))
+    try:
+        import extract_escape_table
+    except Exception as e:  # noqa
+        raise vlib.BrokenTie("tools/extract_escape_table.py cannot be imported", repr(e))
+    try:
+        extract_escape_table.main_write()
+    except extract_escape_table.ExtractError as e:
+        raise vlib.BrokenTie("extract_escape_table: cannot derive the escape table from manifest.rs", str(e))
+
+
 def violation_key(kind, c, bad):
     v = c["v"]
     if kind in ("yaml", "yamlstream") and "unacceptable character" in bad:
@@ -780,18 +905,40 @@ def violation_key(kind, c, bad):
 
 def replay(r):
     rp = r["replay"]
-    line = rp.get("op") or ("json manifest " + rp["case"]["key"] if "fmt" in rp.get("case", {}) else "json " + rp["case"]["key"])
+    if "cli" in rp:
+        vlib.build_cli()
+        args = [a for a in rp["cli"] if a != "<dir>"]
+        if "-m" in args:
+            print("multi-file case: re-run by hand: rsjsonnet -m <dir> on the source below")
+            print(rp["src"])
+            return 1
+        rc, out, err = run_cli(args, rp["src"])
+        print("source:", rp["src"][:1000])
+        print("rc    :", rc)
+        print("stdout:", repr(out.decode("utf-8", "replace"))[:2000])
+        return 1
+    line = rp.get("op")
+    if line is None:
+        k = rp["case"]["key"]
+        line = ("json manifest " + k) if "fmt" in rp["case"] else ("json " + k)
     vlib.build_harness()
     a = vlib.impl([line])[0]
     b = vlib.model([line])[0]
-    print("impl :", a)
-    print("model:", b)
+    print("request:", line[:2000])
+    print("impl   :", a[:2000])
+    print("model  :", b[:2000])
     w = line.split(" ")
     if w[1] == "parse":
-        return 1 if canon_parse_answer(a) != canon_parse_answer(b) else 0
-    if a.startswith("ok "):
         try:
-            print("text :", repr(vlib.unhx(a.split(" ")[1]).decode("utf-8"))[:600])
+            print("text   :", repr(vlib.unhx(w[2]).decode("utf-8"))[:600])
         except Exception:
             pass
-    return 1 if a != b else 0
+        return 1 if canon_parse_answer(a) != canon_parse_answer(b) else 0
+    if a.startswith("ok ") and w[1] == "manifest":
+        try:
+            print("text   :", repr(vlib.unhx(a.split(" ")[1]).decode("utf-8"))[:1200])
+        except Exception:
+            pass
+    if w[1] == "reparse":
+        return 0 if a == "ok t" else 1
+    return 1 if (a != b or r.get("kind") == "failing-input") else 0
